@@ -894,9 +894,29 @@ impl Formatter {
                 self.writer.dedent();
             }
             Expr::If(if_expr) => {
+                // Block form, the only one the parser has: `if cond:` body [`else:` body]
+                self.writer.write("if ");
                 self.format_expr(&if_expr.condition.node);
-                self.writer.write(" if ");
-                // Note: This handles ternary-style if expressions
+                self.writer.writeln(":");
+                self.writer.indent();
+                for stmt in &if_expr.then_body {
+                    self.format_statement(&stmt.node);
+                }
+                if if_expr.then_body.is_empty() {
+                    self.writer.writeln("pass");
+                }
+                self.writer.dedent();
+                if let Some(else_body) = &if_expr.else_body {
+                    self.writer.writeln("else:");
+                    self.writer.indent();
+                    for stmt in else_body {
+                        self.format_statement(&stmt.node);
+                    }
+                    if else_body.is_empty() {
+                        self.writer.writeln("pass");
+                    }
+                    self.writer.dedent();
+                }
             }
             Expr::Closure(params, body) => {
                 // Closure parameters are bare names; the parser gives them the placeholder type `_`,
